@@ -12,6 +12,10 @@ use std::time::{Duration, Instant};
 pub struct Case {
     pub label: String,
     pub exec: Box<dyn Fn(bool) -> RunOutput + Sync + Send>,
+    /// small enough to attempt the complete interleaving tree (unbounded deviations) after the bounded levels
+    pub try_unbounded: bool,
+    /// large single-schedule scenarios: do not go beyond this scheduling bound for this case
+    pub max_k: u32,
 }
 
 pub struct Plan {
@@ -71,8 +75,14 @@ pub fn run_cases(args: &Args, rep: &mut Report, cases: Vec<Case>, plan: &Plan) {
         replay(rep, &cases, &rj);
         return;
     }
+    // debugging aid: VERIF_CASE_FILTER=<substring> restricts the run to matching cases, VERIF_WALL=<seconds> overrides the wall cap
+    let cases: Vec<Case> = match std::env::var("VERIF_CASE_FILTER") {
+        Ok(f) if !f.is_empty() => cases.into_iter().filter(|c| c.label.contains(&f)).collect(),
+        _ => cases,
+    };
     let start = Instant::now();
-    let deadline = start + plan.total_wall;
+    let wall = std::env::var("VERIF_WALL").ok().and_then(|s| s.parse::<u64>().ok()).map_or(plan.total_wall, Duration::from_secs);
+    let deadline = start + wall;
     let threads = args.threads.max(1);
     // Level by level over ALL cases: every case is explored with bound k before any case gets k+1,
     // so the bound reported as completed is uniform and the wall budget goes to the deepest level.
@@ -87,7 +97,7 @@ pub fn run_cases(args: &Args, rep: &mut Report, cases: Vec<Case>, plan: &Plan) {
     }
     let states: Vec<Mutex<St>> = cases.iter().map(|_| Mutex::new(St { best: None, levels: Vec::new(), last: None, prev: None, done: false, note: None, extra_violations: Vec::new() })).collect();
     for (li, &k) in plan.ks.iter().enumerate() {
-        let pending: Vec<usize> = (0..cases.len()).filter(|i| !states[*i].lock().unwrap().done).collect();
+        let pending: Vec<usize> = (0..cases.len()).filter(|i| !states[*i].lock().unwrap().done && k <= cases[*i].max_k).collect();
         if pending.is_empty() || Instant::now() >= deadline {
             break;
         }
@@ -165,6 +175,33 @@ pub fn run_cases(args: &Args, rep: &mut Report, cases: Vec<Case>, plan: &Plan) {
             }
         }
     }
+    // the smallest cases: the complete tree, if the wall budget allows
+    {
+        let pending: Vec<usize> = (0..cases.len()).filter(|i| cases[*i].try_unbounded && !states[*i].lock().unwrap().done).collect();
+        for i in pending {
+            if Instant::now() >= deadline {
+                break;
+            }
+            let c = &cases[i];
+            let t0 = Instant::now();
+            let stx = explore::explore(
+                Budget::new(Budget::UNBOUNDED, plan.env, plan.fault),
+                explore::Limits { max_execs: plan.max_execs_per_case.max(50_000_000), deadline, threads, stop_after_violation_kinds: 0 },
+                &c.label,
+                || (c.exec)(false),
+            );
+            let dt = t0.elapsed().as_secs_f64();
+            let mut st = states[i].lock().unwrap();
+            st.levels.push((Budget::UNBOUNDED, stx.executions, dt));
+            if let Some(cap) = &stx.capped {
+                st.note = Some(format!("unbounded level aborted: {cap}"));
+                st.extra_violations.extend(stx.violations);
+            } else {
+                st.best = Some((Budget::UNBOUNDED, stx));
+                st.done = true;
+            }
+        }
+    }
     let ncases = cases.len().max(1);
     let _ = ncases;
     let results: Vec<(usize, explore::Deepening)> = states
@@ -188,6 +225,7 @@ pub fn run_cases(args: &Args, rep: &mut Report, cases: Vec<Case>, plan: &Plan) {
     let mut horizons = 0u64;
     let mut table: Vec<Value> = Vec::new();
     let mut all_unbounded = true;
+    let mut capped_cases = 0usize;
     for (i, d) in &results {
         let c = &cases[*i];
         let st = &d.stats;
@@ -197,10 +235,15 @@ pub fn run_cases(args: &Args, rep: &mut Report, cases: Vec<Case>, plan: &Plan) {
         outcomes_total += st.outcomes.len() as u64;
         witnesses |= st.witnesses;
         horizons += st.horizons;
-        match (d.bound_completed, min_bound) {
-            (None, _) => min_bound = None,
-            (Some(k), Some(m)) if k < m => min_bound = Some(k),
-            _ => {}
+        let own_cap = c.max_k != Budget::UNBOUNDED && d.bound_completed.is_some_and(|k| k >= c.max_k);
+        if own_cap {
+            capped_cases += 1;
+        } else {
+            match (d.bound_completed, min_bound) {
+                (None, _) => min_bound = None,
+                (Some(k), Some(m)) if k < m => min_bound = Some(k),
+                _ => {}
+            }
         }
         if d.bound_completed != Some(Budget::UNBOUNDED) {
             all_unbounded = false;
@@ -240,9 +283,12 @@ pub fn run_cases(args: &Args, rep: &mut Report, cases: Vec<Case>, plan: &Plan) {
     }
     rep.distinct_nontrivial = outcomes_total.max(rep.states.min(rep.evaluations));
     rep.exhaustive = all_unbounded;
+    let n_unb = results.iter().filter(|(_, d)| d.bound_completed == Some(Budget::UNBOUNDED)).count();
+    rep.bounds.insert("cases_explored_to_exhaustion".into(), json!(n_unb));
     rep.bounds.insert("cases".into(), json!(cases.len()));
     rep.bounds.insert("deviation_bounds_tried".into(), json!(plan.ks.iter().map(|k| bound_str(Some(*k))).collect::<Vec<_>>()));
     rep.bounds.insert("min_deviation_bound_completed_over_cases".into(), json!(bound_str(min_bound)));
+    rep.bounds.insert("cases_with_their_own_lower_bound".into(), json!(capped_cases));
     rep.bounds.insert("env_deviation_budget".into(), json!(plan.env));
     rep.bounds.insert("fault_budget".into(), json!(plan.fault));
     rep.extra.insert("distinct_outcomes".into(), json!(outcomes_total));
